@@ -11,6 +11,7 @@ if ! git diff --quiet; then echo "refusing: /repo working tree is dirty"; exit 2
 git apply "$PATCH" || { echo "patch does not apply"; exit 2; }
 trap 'git -C /repo checkout -- . ; echo "[/repo restored]"' EXIT
 cd /verif
+export VERIF_EVIDENCE_DIR=/tmp/verif_seeded_evidence; mkdir -p "$VERIF_EVIDENCE_DIR"   # keep /verif/evidence for the real tree
 for id in "$@"; do
   out=$(timeout 1800 ./check "$id" --tier "$TIER" 2>&1); rc=$?
   nv=$(echo "$out" | grep -c '^VIOLATION')
